@@ -59,6 +59,58 @@ example :
     expected? (kindOf 2) (inclDir id ['/', 'w'] [['a', '/', 'i'], ['.', '.', '/', 'b', '/', 'j']]) (some ['/', 'h']) (fun _ => false)
         ['C', ':', '\\', 'd'] = some ['C', ':', '\\', 'd'] := by decide
 
+/-! ## round 6 — resolving what a load returned changes nothing (value level) -/
+
+/-- **a resolved value is a fixpoint of every later resolution**, whatever directory that later resolution uses: what one
+resolution against an absolute base returns is left as written by a resolution against any base, with any `$HOME`
+(attribute kinds of `predict`: 0 env/label/watch paths, 1 build contexts, ≥ 2 mount sources and secret/config files) -/
+theorem resolved_is_fixpoint (k : Nat) (cfg cfg' : Cfg) (s r : Str) (hwd : isAbs cfg.wd = true)
+    (h : resolveKind k cfg s = .ok r) : resolveKind k cfg' r = .ok r := by
+  match k with
+  | 0 =>
+    simp only [resolveKind, Out.ok.injEq] at h ⊢
+    subst h
+    exact absPathStr_fix cfg' _ (absPathStr_abs_or_nil cfg s hwd)
+  | 1 =>
+    simp only [resolveKind, Out.ok.injEq] at h ⊢
+    subst h
+    cases hu : urlLike s with
+    | true => rw [absContextStr_url cfg s hu]; exact absContextStr_url cfg' s hu
+    | false =>
+      rw [absContextStr_local cfg s hu]
+      cases h2 : urlLike (absPathStr cfg s) with
+      | true => exact absContextStr_url cfg' _ h2
+      | false =>
+        rw [absContextStr_local cfg' _ h2]
+        exact absPathStr_fix cfg' _ (absPathStr_abs_or_nil cfg s hwd)
+  | _ + 2 =>
+    simp only [resolveKind] at h ⊢
+    exact maybeUnixStr_fix cfg' r (maybeUnixStr_result cfg s r hwd h)
+
+theorem isAbs_inclDir (ps : List Str) : ∀ (L : Str), isAbs L = true → isAbs (inclDir id L ps) = true := by
+  induction ps with
+  | nil => intro L h; exact h
+  | cons p ps ih => intro L h; exact ih _ (isAbs_dir _ (isAbs_absIn L p h))
+
+/-- **resolving an already loaded project changes nothing**: the value of a path attribute of the main files / of an
+included file at any depth in the loaded project (`predict`) is left as written by a further resolution against the
+project directory — or against any other directory -/
+theorem loaded_value_is_fixpoint (k : Nat) (cfg cfg' : Cfg) (isDir : Str → Bool) (ps : List Str) (s r : Str)
+    (hW : isAbs cfg.wd = true) (hok : InclOK isDir (fun _ => True) cfg.wd ps)
+    (hhome : ∀ h, cfg.home = some h → h ≠ [])
+    (h : predict k cfg isDir (inclSteps ps) true s = .ok r) : resolveKind k cfg' r = .ok r := by
+  rw [include_chain_origin k cfg isDir ps s hW hok hhome] at h
+  exact resolved_is_fixpoint k { cfg with wd := inclDir id cfg.wd ps } cfg' s r (isAbs_inclDir ps cfg.wd hW) h
+
+/-- … and loading is total on path attributes: for every chain of includes the loader's staged resolution yields a value
+(no stage fails or panics on a string) -/
+theorem loaded_value_exists (k : Nat) (cfg : Cfg) (isDir : Str → Bool) (ps : List Str) (s : Str)
+    (hW : isAbs cfg.wd = true) (hok : InclOK isDir (fun _ => True) cfg.wd ps)
+    (hhome : ∀ h, cfg.home = some h → h ≠ []) :
+    ∃ r, predict k cfg isDir (inclSteps ps) true s = .ok r := by
+  rw [include_chain_origin k cfg isDir ps s hW hok hhome]
+  exact resolveKind_total k _ s
+
 end CV.Paths
 
 /-! # Round 6 — the clause of C12 about the composed pipeline (`Model/Pipeline.lean`: `Pipeline.load`, `Pipeline.loadY`)
